@@ -1,5 +1,92 @@
-From DnsV Require Import Model.Svcb Spec.SvcbWire Proofs.Svcb.
+(* C18 - SVCB/HTTPS parameters compile to conformant, faithful wire data.
+   This file holds only theorem statements closed by [exact]; proofs are in Proofs/Svcb.v.
+   [orc] stands for the library behaviour that is not modelled (net.ParseIP, net.IP.String,
+   base64 Decode / Encode); every theorem holds for every [orc] satisfying the stated facts.
+   The accepted grammar: the list ends at the first empty segment of the ';' split
+   (Spec/SvcbWire.v declared_raw). *)
+From Coq Require Import Sorted.
+From DnsV Require Import Base.Bytes Base.Text Model.Svcb Spec.SvcbWire Proofs.Svcb.
 Open Scope N_scope.
-Theorem C18_placeholder : key_of VNda = 2.
-Proof. exact placeholder_c18. Qed.
-Print Assumptions C18_placeholder.
+
+(* every accepted parameter list is stored with strictly increasing keys (hence none repeated) *)
+Theorem C18_sorted_unique : forall orc,
+  (forall s a, parse_ip orc s = Some a -> length a = 16%nat /\ wf_bytes a) ->
+  (forall s x, b64_dec orc s = Some x -> wf_bytes x) ->
+  forall t l, from_text orc t = Ok l -> StronglySorted N.lt (map fst l).
+Proof. exact sorted_unique. Qed.
+Print Assumptions C18_sorted_unique.
+
+(* the independent RFC 9460 decoder recovers from the emitted wire data exactly the declared
+   keys and values (in key order) - for every accepted text, unconditionally *)
+Theorem C18_decodes_to_declared : forall orc,
+  (forall s a, parse_ip orc s = Some a -> length a = 16%nat /\ wf_bytes a) ->
+  (forall s x, b64_dec orc s = Some x -> wf_bytes x) ->
+  forall t l, from_text orc t = Ok l ->
+  exists d, declared (parse_ip orc) (b64_dec orc) t = Some d /\ rfc_decode (to_wire l) = Some d.
+Proof. exact decodes_to_declared. Qed.
+Print Assumptions C18_decodes_to_declared.
+
+(* a list whose mandatory parameter names a missing key, repeats a key or names itself
+   (or which repeats a parameter key) is rejected *)
+Theorem C18_mandatory_rejects : forall orc,
+  (forall s a, parse_ip orc s = Some a -> length a = 16%nat /\ wf_bytes a) ->
+  (forall s x, b64_dec orc s = Some x -> wf_bytes x) ->
+  forall t d, declared_raw (parse_ip orc) (b64_dec orc) t = Some d ->
+  mand_names_missing d \/ mand_repeats d \/ mand_names_self d \/ ~ NoDup (map key_of d) ->
+  exists e, from_text orc t = Err e.
+Proof. exact mandatory_rejects. Qed.
+Print Assumptions C18_mandatory_rejects.
+
+(* printing the stored parameters and parsing the print again yields the same list (hence the
+   same wire data), for every accepted list that declares no v4-mapped ipv6hint *)
+Theorem C18_text_roundtrip_outside_finding : forall orc,
+  (forall s a, parse_ip orc s = Some a -> length a = 16%nat /\ wf_bytes a) ->
+  (forall s x, b64_dec orc s = Some x -> wf_bytes x) ->
+  (forall a, length a = 4%nat -> wf_bytes a -> parse_ip orc (print_ip orc a) = Some (v4_prefix ++ a)) ->
+  (forall a, length a = 16%nat -> wf_bytes a -> ip_to4 a = None ->
+     parse_ip orc (print_ip orc a) = Some a /\ has_byte 58 (print_ip orc a) = true) ->
+  (forall a, (length a = 4%nat \/ length a = 16%nat) -> wf_bytes a ->
+     has_byte 59 (print_ip orc a) = false /\ has_byte 124 (print_ip orc a) = false
+     /\ has_byte 34 (print_ip orc a) = false) ->
+  (forall x, wf_bytes x -> b64_dec orc (b64_enc orc x) = Some x
+     /\ has_byte 59 (b64_enc orc x) = false /\ has_byte 34 (b64_enc orc x) = false) ->
+  forall t l d, from_text orc t = Ok l -> declared (parse_ip orc) (b64_dec orc) t = Some d ->
+  no_mapped6 d -> exists s, to_text orc l = Ok s /\ from_text orc s = Ok l.
+Proof. exact text_roundtrip_outside_finding. Qed.
+Print Assumptions C18_text_roundtrip_outside_finding.
+
+(* finding F8: with a v4-mapped ipv6hint the round trip fails - ipv6hint=::ffff:1.2.3.4 is
+   accepted, printed as ipv6hint="1.2.3.4" and that print is rejected *)
+Theorem C18_text_roundtrip_refuted : forall orc,
+  parse_ip orc f8_token = Some f8_addr -> print_ip orc f8_addr = f8_dotted ->
+  from_text orc f8_text = Ok [(6, f8_addr)]
+  /\ to_text orc [(6, f8_addr)] = Ok f8_printed
+  /\ from_text orc f8_printed = Err E_IP6_NOCOLON.
+Proof. exact text_roundtrip_refuted. Qed.
+Print Assumptions C18_text_roundtrip_refuted.
+
+Theorem C18_text_roundtrip_refuted_closed :
+  exists t l s, from_text f8_orc t = Ok l /\ to_text f8_orc l = Ok s /\ from_text f8_orc s = Err E_IP6_NOCOLON.
+Proof. exact text_roundtrip_refuted_closed. Qed.
+Print Assumptions C18_text_roundtrip_refuted_closed.
+
+(* the printing side of the model never runs out of the fuel it supplies *)
+Theorem C18_model_fuel_suffices : forall orc k v, unmarshal orc k v <> Err E_FUEL.
+Proof. exact model_fuel_suffices. Qed.
+Print Assumptions C18_model_fuel_suffices.
+
+(* all oracle hypotheses above are jointly satisfiable (by a toy address / base64 syntax) *)
+Theorem C18_oracle_hypotheses_satisfiable :
+  (forall s a, parse_ip ex_orc s = Some a -> length a = 16%nat /\ wf_bytes a)
+  /\ (forall s x, b64_dec ex_orc s = Some x -> wf_bytes x)
+  /\ (forall a, length a = 4%nat -> wf_bytes a -> parse_ip ex_orc (print_ip ex_orc a) = Some (v4_prefix ++ a))
+  /\ (forall a, length a = 16%nat -> wf_bytes a -> ip_to4 a = None ->
+        parse_ip ex_orc (print_ip ex_orc a) = Some a /\ has_byte 58 (print_ip ex_orc a) = true)
+  /\ (forall a, (length a = 4%nat \/ length a = 16%nat) -> wf_bytes a ->
+        has_byte 59 (print_ip ex_orc a) = false /\ has_byte 124 (print_ip ex_orc a) = false
+        /\ has_byte 34 (print_ip ex_orc a) = false)
+  /\ (forall x, wf_bytes x -> b64_dec ex_orc (b64_enc ex_orc x) = Some x
+        /\ has_byte 59 (b64_enc ex_orc x) = false /\ has_byte 34 (b64_enc ex_orc x) = false)
+  /\ (exists t l, from_text ex_orc t = Ok l /\ length l = 2%nat).
+Proof. exact oracle_hypotheses_satisfiable. Qed.
+Print Assumptions C18_oracle_hypotheses_satisfiable.
